@@ -6,14 +6,13 @@ unreachable under the signer's invariant.  Tie H: on every real signature the mo
 transmitted fields and the model's `decode` with the matrix the real verifier re-expands (hook H3s), and the
 invariants the theorem assumes are checked on the real matrix.
 Sampled part (PARTIAL): acceptance over seeds x levels x messages x forced v2 / hints>=20; binding / tampering catalogue
-(other message, other key, every field perturbed, zero matrix, E_aux := pk curve)."""
+through the verifier-side harness of C02 (tools/props/c02.py, verif_common.py, drv_verify.c): a7's tampering generator and
+decision-model comparison (accept_iff_heur), heuristic variant only."""
 import os, re, json
 import vlib, signlib
 import c04 as base
 
 LENS = [0, 1, 31, 32, 33, 135, 136, 137, 10000]
-TAMPER = [("x", 1), ("x", 2), ("b0", 1), ("b0", 2), ("d0", 1), ("b1", 1), ("d1", 1), ("c0_adjust", 1), ("e0_adjust", 1),
-          ("hint_b", 1), ("hint_aux0", 1), ("hint_aux1", 1), ("E_aux", 1), ("zero_matrix", 0), ("E_aux_pk", 0)]
 
 
 def run(ctx):
@@ -35,20 +34,13 @@ def run(ctx):
             ops = ["seed %d" % seed]
             if i % 4 == 3:
                 ops.append("setenv SQI_VERIF_HINT20 1")
-            ops += ["keygen", "otherkey", "setenv SQI_VERIF_TRACE 1"]
+            ops += ["keygen", "setenv SQI_VERIF_TRACE 1"]
             meta = []
             for j in range(nmsg):
                 ln = LENS[(i + j) % len(LENS)] if j < len(LENS) else 32
                 ms = rng.below(10**9)
                 ops += ["msg %d %d" % (ln, ms), "sign", "encinfo", "verify"]
                 meta.append(dict(kind="plain", len=ln, ms=ms))
-                if j < (2 if quick else 4):
-                    # binding / tampering catalogue on this signature
-                    ops += ["verify_flip", "verify_msg %d %d" % (ln + 1, ms), "verify_pk2"]
-                    cat = TAMPER if (j == 0 or not quick) else [TAMPER[rng.below(len(TAMPER))] for _ in range(4)]
-                    for (fld, d) in cat:
-                        ops += ["tamper %s %d" % (fld, d), "verify", "restore"]
-                    meta[-1]["catalogue"] = [("other_msg", 0), ("other_len", 0), ("other_pk", 0)] + list(cat)
             jobs.append((("plain", l, seed), exes[(l, "heur")], ops, None, 900 if quick else 3000, meta))
         # forced valuations, one process, commitment reused
         ks = sorted({0, 1, 2 + rng.below(3), vm - 1 - rng.below(3), vm, vm + 1}) if quick else list(range(0, vm + 2))
@@ -150,19 +142,51 @@ def run(ctx):
                         note("L%d:a%sn" % (l, "<=" if a <= ff - a else ">"))
                         if not ok:
                             inv_bad.append(dict(level=l, seed=key[2], sign_index=idx))
-                else:
-                    # an entry of the binding / tampering catalogue
-                    what = cat[ci] if ci < len(cat) else ("?", 0)
-                    ci += 1
-                    if what[0] in ("c0_adjust", "e0_adjust") and cur.get("enc") and int(cur["enc"][1]) > int(cur["enc"][0]) - int(cur["enc"][1]):
-                        note("tamper:%s:dead-field(a>n)" % what[0])      # the verifier does not read the field when a > n: not isogeny-altering
-                        continue
-                    note("tamper:%s:%s" % (what[0], "accepted" if val == 1 else "rejected"))
-                    ctx.case(("tamper", l, what[0], val))
-                    if val == 1:
-                        ctx.violation("heur:binding:%s" % what[0], "heuristic verifier accepts after `%s` (delta %s) at level %d" % (what[0], what[1], l),
-                                      dict(level=l, variant="heur", ops=ops, sign_index=idx, catalogue_entry=list(what), build="ref, hooks on",
-                                           driver="tools/harness/drv_sign.c"))
+    # ---- binding / tampering / construction: the verifier-side harness of C02 (a7), heuristic variant only
+    import c02, verif_common as vc
+    drivers = vc.compile_all(ctx, san=False, combos=[(l, "heur") for l in (1, 3, 5)])
+    sr = ctx.rng.fork("c05-binding")
+    nk = {1: 3, 3: 1, 5: 1} if quick else {1: 16, 3: 8, 5: 5}
+    gjobs = []
+    for l in (1, 3, 5):
+        for k in range(nk[l] + 1):
+            L = sr.choice([0, 1, 31, 32, 33, 135, 136, 137, 500])
+            gjobs.append((l, "heur", "%096x" % sr.bits(384), ("%0*x" % (2 * L, sr.bits(8 * L))) if L else "-"))
+    gens = vc.pmap(lambda j: (j, vc.gen(drivers[(j[0], j[1])], j[1], j[2], j[3])), gjobs)
+    honest = {}
+    for (l, v, sd, msg), g in gens:
+        if g["status"] == "ok" and g.get("ok") == 1:
+            honest.setdefault((l, v), []).append(g)
+    R = c02.Runner(ctx, drivers)
+    for (l, v), hs in sorted(honest.items()):
+        rr = ctx.rng.fork("c05-%d" % l)
+        for n, h in enumerate(hs[:nk[l]]):
+            pk, sg, msg = h["pk"], h["sig"], h["msg"]
+            R.add(l, v, "honest", "honest", pk, sg, msg)
+            tam = c02.tamperings(rr, l, v, sg)
+            if quick and l != 1:
+                tam = [t for i, t in enumerate(tam) if i % 3 == n % 3 or "re-encoding" in t[0]]
+            for label, cls, s2 in tam:
+                R.add(l, v, label, cls, pk, s2, msg)
+            other = hs[(n + 1) % len(hs)]
+            if other is not h:
+                R.add(l, v, "other pk", "other-pk", other["pk"], sg, msg)
+            mb = bytes.fromhex(msg) if msg != "-" else b""
+            for label, m2 in (("msg bit flip", bytes([mb[0] ^ 1]) + mb[1:] if mb else b"\x00"), ("msg truncated", mb[:-1] if mb else b"\x01"), ("msg extended", mb + b"\x00")):
+                if m2 != mb:
+                    R.add(l, v, label, "other-msg", pk, sg, m2.hex() if m2 else "-")
+    bres = R.run()
+    bh = {}
+    hj = {}
+    for it, (st, kv) in bres:
+        if it[3] == "honest" and st == "ok":
+            hj[(it[0], it[1], tuple(it[4]), it[6])] = {kv.get("jcom"), kv.get("jalt")}
+    ndis, ex = c02.evaluate(ctx, bres, bh, hj)       # reports violations (accepted although altering; other pk / message; honest rejected)
+    ctx.obligation("binding catalogue of the heuristic verifier vs decision model accept_iff_heur (%d runs, harness of C02)" % len(bres), ndis == 0, json.dumps(ex[:3])[:500])
+    if ndis:
+        ctx.violation("model-mismatch:heur-decision:%s" % json.dumps(ex[0])[:100], "heuristic verifier and its decision model disagree", dict(disagreements=ex[:5]), found=False)
+    ctx.coverage["binding_probe_classes"] = bh
+    ctx.coverage["binding_runs"] = len(bres)
     mout = ctx.driver(enc_lines + dec_lines) if enc_lines else []
     edis = [dict(op=o[:80], impl=e, model=m) for o, e, m in zip(enc_lines + dec_lines, enc_expect + dec_expect, mout) if e != m]
     ctx.evaluations += len(enc_lines) + len(dec_lines)
